@@ -126,6 +126,26 @@ impl Property for C07 {
                 }
             })
             .exhaustive(),
+            // a document is edited several times (its version number grows), closed, opened again (an editor starts
+            // counting at 1 again) and edited: what was known of the earlier editing session must not matter
+            Family::new("reopened-documents", 3, |ws, _r, emit| {
+                for f in 0..NFILES {
+                    for edits in 2..=4usize {
+                        for v in [1usize, 9, 20] {
+                            let mut ops: Vec<serde_json::Value> = (0..=edits).map(|k| json!([0, f, (v + 3 * k) % (2 * NVARIANTS)])).collect();
+                            ops.push(json!([1, f, 0]));
+                            ops.push(json!([0, f, (v + 1) % (2 * NVARIANTS)]));
+                            ops.push(json!([0, f, (v + 5) % (2 * NVARIANTS)]));
+                            ops.push(json!([0, 0, 7]));
+                            ops.push(json!([0, f, (v + 2) % (2 * NVARIANTS)]));
+                            if !emit(json!({"kind": "server-hist", "ops": ops, "ws": ws})) {
+                                return;
+                            }
+                        }
+                    }
+                }
+            })
+            .exhaustive(),
             Family::new("random-histories", ctx.tier.pick(48, 1500), |_c, rng, emit| {
                 for _ in 0..40 {
                     let n = 1 + rng.below(12);
